@@ -153,7 +153,12 @@ theorem inplace_reversal_misplaces :
     resolve (.obj [("pets", .arr [.null, .obj [("name", .str "rex")]])]) [.key "pets", .idx 1, .key "name"] = some (.str "rex") := by
   constructor <;> simp [resolve, resolve1, lookup]
 
-/-- non-vacuity: a sequence with three pointer-showing observations on a three-token path -/
-example : (observe codeCopies [.key "name", .idx 1, .key "pets"] reobsSeq).1.length = 3 := by decide
+/-- the same through `openapi3filter.ConvertErrors` on an enum error (two `JSONPointer()` calls inside one conversion:
+the object is back where it was, but the next observation after a NON-enum conversion is flipped) -/
+theorem inplace_reversal_witness_convert :
+    (observe false [.key "kind", .key "pet"] [.convertErrors false, .jsonPointer]).1 = [[.key "pet", .key "kind"], [.key "kind", .key "pet"]] := by decide
+
+/-- non-vacuity: a sequence with five pointer-showing observations on a three-token path -/
+example : (observe codeCopies [.key "name", .idx 1, .key "pets"] reobsSeq).1.length = 5 := by decide
 
 end KinModel.Schema
